@@ -343,6 +343,15 @@ func runHarness(prog *ssa.Program, pkg *ssa.Package, fn *ssa.Function, solver, t
 		return
 	}
 	e.base = s
+	// verifrt.Tier mirrors the tier (natively it is set from $VERIF_TIER / the replay file)
+	if tier == "thorough" {
+		if rt := prog.ImportedPackage("github.com/IrineSistiana/mosproxy/internal/verifrt"); rt != nil {
+			if g, ok := rt.Members["Tier"].(*ssa.Global); ok {
+				id := e.globalObj(s, g)
+				s.wobj(id).Val = e.c.BV(1, 64)
+			}
+		}
+	}
 	// harness
 	h := s
 	h.gs = []*Goroutine{{id: 0, frames: []*Frame{e.newFrame(fn, nil, nil, -1)}}}
